@@ -75,8 +75,7 @@ pub fn feature_bins(min_shift: u8, depth: u8, feats: &[(usize, usize)]) -> Resul
         for (k, &(s, e)) in feats.iter().enumerate() {
             // chunks [3k, 3k+1): never adjacent, so Bin::add_chunk cannot merge two features
             let c = Chunk::new(vp(3 * k as u64), vp(3 * k as u64 + 1));
-            ix.add_record(Some((0, pos(s), pos(e), true)), c)
-                .map_err(|e2| ("feature-bin:add-record-rejected".to_string(), format!("add_record([{s},{e}]) failed: {e2}")))?;
+            ix.add_record(Some((0, pos(s), pos(e), true)), c).map_err(|e2| ("feature-bin:add-record-rejected".to_string(), format!("add_record([{s},{e}]) failed: {e2}")))?;
         }
         let index = ix.build(1);
         let rs = &index.reference_sequences()[0];
@@ -90,10 +89,7 @@ pub fn feature_bins(min_shift: u8, depth: u8, feats: &[(usize, usize)]) -> Resul
                 }
                 let k = (st / 3) as usize;
                 if out[k] != usize::MAX {
-                    return Err((
-                        "feature-bin:feature-in-two-bins".into(),
-                        format!("feature [{},{}] at ({min_shift},{depth}) appears in bins {} and {id}", feats[k].0, feats[k].1, out[k]),
-                    ));
+                    return Err(("feature-bin:feature-in-two-bins".into(), format!("feature [{},{}] at ({min_shift},{depth}) appears in bins {} and {id}", feats[k].0, feats[k].1, out[k])));
                 }
                 out[k] = id;
             }
@@ -123,13 +119,7 @@ pub fn full_reference(depth: u8) -> ReferenceSequence<BinnedIndex> {
 }
 
 /// Region bins through `ReferenceSequence::query`; `None` = the call returned `Err` (region not accepted).
-pub fn region_bins(
-    full: &ReferenceSequence<BinnedIndex>,
-    min_shift: u8,
-    depth: u8,
-    iv: Interval,
-    out: &mut Vec<usize>,
-) -> Result<bool, (String, String)> {
+pub fn region_bins(full: &ReferenceSequence<BinnedIndex>, min_shift: u8, depth: u8, iv: Interval, out: &mut Vec<usize>) -> Result<bool, (String, String)> {
     out.clear();
     let r = guard::catch(|| full.query(min_shift, depth, iv).map(|bins| bins.iter().map(|b| b.chunks()[0]).collect::<Vec<_>>()));
     match r {
@@ -190,10 +180,7 @@ fn build_table(min_shift: u8, depth: u8) -> TableResult {
         for (k, &(s0, e0)) in feats.iter().enumerate() {
             let b = bins[k];
             if b >= nbins {
-                return Err((
-                    "feature-bin:id-outside-geometry".into(),
-                    format!("feature [{s0},{e0}] at ({min_shift},{depth}) got bin {b}, the geometry has ids 0..{nbins}"),
-                ));
+                return Err(("feature-bin:id-outside-geometry".into(), format!("feature [{s0},{e0}] at ({min_shift},{depth}) got bin {b}, the geometry has ids 0..{nbins}")));
             }
             let cell = &mut m[b * w + s0];
             *cell = (*cell).max(e0 as u32);
@@ -244,7 +231,8 @@ fn find_witness(min_shift: u8, depth: u8, n: usize, bin: usize, rs: usize, re: u
     "?".into()
 }
 
-/// Exhaustive block: all regions [rs, re] with rs in lo..hi (and the unbounded forms starting at rs).
+/// Exhaustive block: all regions [rs, re] with rs in lo..hi, in every interval form that denotes them
+/// (`rs..=re`; `rs..`; for rs = 1 also `..=re` and `..`).
 pub fn run_exhaustive(min_shift: u8, depth: u8, lo: usize, hi: usize, o: &mut CaseOut) {
     let t = match table(min_shift, depth) {
         Ok(t) => t,
@@ -268,57 +256,71 @@ pub fn run_exhaustive(min_shift: u8, depth: u8, lo: usize, hi: usize, o: &mut Ca
     for rs in lo..hi.min(n + 1) {
         // bounded regions rs..=re, re up to n (n itself is expected to be refused: max position is n-1),
         // then the form rs.. (unbounded end), judged against [rs, n].
-        for re in rs..=n + 1 {
-            let (iv, re_eff): (Interval, usize) = if re <= n { ((pos(rs)..=pos(re)).into(), re) } else { ((pos(rs)..).into(), n) };
-            match region_bins(&full, min_shift, depth, iv, &mut got) {
-                Err((sig, desc)) => {
-                    if violations < 3 {
-                        o.violation(format!("binning:{sig}"), desc);
+        for re0 in rs..=n + 1 {
+            // interval forms that denote [rs, re]: bounded; `rs..` for re = n; for rs = 1 also `..=re` and `..`
+            let mut forms: Vec<(Interval, usize, bool)> = Vec::with_capacity(2);
+            if re0 <= n {
+                forms.push(((pos(rs)..=pos(re0)).into(), re0, false));
+                if rs == 1 {
+                    forms.push(((..=pos(re0)).into(), re0, false));
+                }
+            } else {
+                forms.push(((pos(rs)..).into(), n, true));
+                if rs == 1 {
+                    forms.push(((..).into(), n, true));
+                }
+            }
+            for (iv, re_eff, unbounded) in forms {
+                let re = if unbounded { n + 1 } else { re_eff };
+                match region_bins(&full, min_shift, depth, iv, &mut got) {
+                    Err((sig, desc)) => {
+                        if violations < 3 {
+                            o.violation(format!("binning:{sig}"), desc);
+                        }
+                        violations += 1;
+                        continue;
                     }
-                    violations += 1;
-                    continue;
+                    Ok(false) => {
+                        rejected += 1;
+                        continue;
+                    }
+                    Ok(true) => {}
                 }
-                Ok(false) => {
-                    rejected += 1;
-                    continue;
+                regions += 1;
+                for &b in &got {
+                    if b < t.nbins {
+                        in_r[b] = true;
+                    }
                 }
-                Ok(true) => {}
-            }
-            regions += 1;
-            for &b in &got {
-                if b < t.nbins {
-                    in_r[b] = true;
-                }
-            }
-            for b in 0..t.nbins {
-                if !in_r[b] && t.m[b * w + re_eff] as usize >= rs {
-                    violations += 1;
-                    if violations <= 3 {
-                        let (lvl, _, _) = bin_interval(b, min_shift, depth);
-                        let f = find_witness(min_shift, depth, n, b, rs, re_eff);
-                        o.violation(
-                            format!("binning:feature-bin-not-among-region-bins:feature-bin-level={lvl}:unbounded-end={}", re > n),
-                            format!(
-                                "geometry ({min_shift},{depth}): feature {f} is put into bin {b} by Indexer::add_record and intersects region {iv}, \
+                for b in 0..t.nbins {
+                    if !in_r[b] && t.m[b * w + re_eff] as usize >= rs {
+                        violations += 1;
+                        if violations <= 3 {
+                            let (lvl, _, _) = bin_interval(b, min_shift, depth);
+                            let f = find_witness(min_shift, depth, n, b, rs, re_eff);
+                            o.violation(
+                                format!("binning:feature-bin-not-among-region-bins:feature-bin-level={lvl}:unbounded-end={}", re > n),
+                                format!(
+                                    "geometry ({min_shift},{depth}): feature {f} is put into bin {b} by Indexer::add_record and intersects region {iv}, \
                                  but ReferenceSequence::query returns only bins {got:?}"
-                            ),
-                        );
+                                ),
+                            );
+                        }
                     }
                 }
-            }
-            lookups += (t.nbins - got.len()) as u64;
-            for &b in &got {
-                if b < t.nbins {
-                    in_r[b] = false;
+                lookups += (t.nbins - got.len()) as u64;
+                for &b in &got {
+                    if b < t.nbins {
+                        in_r[b] = false;
+                    }
                 }
-            }
-            // pairs (F,R) with F ∩ R ≠ ∅ decided for this R: all features minus those entirely left/right
-            pairs += tri(n) - tri(rs - 1) - tri(n - re_eff);
-            if re <= n {
-                fps.push(fnv1a(
-                    format!("bin|{min_shift}|{depth}|{}|{}|{}|{}", span_class(rs, re, min_shift, depth), (rs - 1) % (1 << min_shift) == 0, re % (1 << min_shift) == 0, got.len())
-                        .as_bytes(),
-                ));
+                // pairs (F,R) with F ∩ R ≠ ∅ decided for this R: all features minus those entirely left/right
+                pairs += tri(n) - tri(rs - 1) - tri(n - re_eff);
+                if re <= n {
+                    fps.push(fnv1a(
+                        format!("bin|{min_shift}|{depth}|{}|{}|{}|{}", span_class(rs, re, min_shift, depth), (rs - 1) % (1 << min_shift) == 0, re % (1 << min_shift) == 0, got.len()).as_bytes(),
+                    ));
+                }
             }
         }
         fps.sort_unstable();
